@@ -21,9 +21,29 @@ def prepare():
         with open(tour, 'a') as f: f.write(open(os.path.join(inj, 'tour_tail.rs')).read())
         shutil.copy(os.path.join(SNAPR, 'Cargo.lock'), os.path.join(REPLAY, 'Cargo.lock'))
 
+def _stamp():
+    import hashlib, glob
+    h = hashlib.sha256(build.src_hash(['model', 'solution', 'solver', 'server', 'internal']).encode())
+    for f in sorted(glob.glob(os.path.join(REPLAY, 'src', '*.rs')) + glob.glob(os.path.join(REPLAY, 'inject', '*')) + [os.path.join(REPLAY, 'Cargo.toml')]):
+        h.update(open(f, 'rb').read())
+    return h.hexdigest()
+
 def binary(profile='dev'):
     key = profile
     if key in _built: return _built[key]
+    p = os.path.join(TARGET, 'release' if profile == 'release' else 'debug', 'replay'); stampf = os.path.join(TARGET, profile + '.stamp')
+    st = _stamp()
+    if os.path.exists(p) and os.path.exists(stampf) and open(stampf).read() == st:
+        _built[key] = p; return p
+    with build.Lock('.replay.%s.lock' % profile):
+        if os.path.exists(p) and os.path.exists(stampf) and open(stampf).read() == st:
+            _built[key] = p; return p
+        r = _build(profile)
+        with open(stampf, 'w') as f: f.write(st)
+    return r
+
+def _build(profile):
+    key = profile
     prepare()
     t0 = time.time()
     cmd = ['cargo', 'build', '--offline', '--target-dir', TARGET] + (['--release'] if profile == 'release' else [])
